@@ -610,7 +610,8 @@ Proof.
       + exfalso. unfold py_str in PS. destruct (v =? 0); [discriminate|].
         destruct (Z.leb_spec pow10_limit (Z.abs v)) as [Big|]; [|destruct (v <? 0); discriminate].
         assert (10 ^ 13 < pow10_limit) by (vm_compute; reflexivity).
-        destruct abs_threshold; [lia|]. destruct H as [?|Hv]; [discriminate|lia]. }
+        set (P10 := pow10_limit) in *. clearbody P10. cbv beta iota in L.
+        destruct abs_threshold; [lia|]. destruct H as [?|Hv]; [discriminate|]. lia. }
   destruct TXT as (t & -> & R). unfold emit_num. rewrite R.
   destruct (Z.leb_spec (bit_length v) 63) as [Small|Large]; cbn [decode_emitted].
   - rewrite c_array_fits by assumption. reflexivity.
@@ -645,12 +646,14 @@ Proof.
   intros R H. unfold negated_literal_text. rewrite R.
   assert (PSok : Z.abs v < pow10_limit -> exists s', py_str (- v) = Some s').
   { intros B. unfold py_str. destruct (- v =? 0); [eauto|].
-    destruct (Z.leb_spec pow10_limit (Z.abs (- v))); [lia|]. eauto. }
+    set (P10 := pow10_limit) in *. clearbody P10.
+    destruct (Z.leb_spec P10 (Z.abs (- v))); [lia|]. eauto. }
   destruct repaired.
   - unfold int_const_text. destruct (Z.gtb_spec (Z.abs (- v)) (10 ^ 13)) as [G|L].
     + destruct (py_hex_roundtrip (- v)) as (S & R'). exists (py_hex (- v)). rewrite S. auto.
-    + assert (10 ^ 13 < pow10_limit) by (vm_compute; reflexivity).
-      destruct (PSok ltac:(lia)) as (s' & PS). rewrite PS.
+    + assert (B13 : 10 ^ 13 < pow10_limit) by (vm_compute; reflexivity).
+      assert (B : Z.abs v < pow10_limit) by (set (P10 := pow10_limit) in *; clearbody P10; lia).
+      destruct (PSok B) as (s' & PS). rewrite PS.
       destruct (py_str_roundtrip _ s' PS) as (S & R'). exists s'. rewrite S. auto.
   - destruct H as [?|Hv]; [discriminate|].
     destruct (PSok Hv) as (s' & PS). rewrite PS.
